@@ -50,6 +50,14 @@ def programs(ctx, rawout=True):
     if len(progs) > cap:
         keep = set(ctx.rng.sample(range(len(progs)), cap))
         progs = [p for i, p in enumerate(progs) if i in keep]
+    # deep nesting (20..60 levels here: the trace spec takes trees up to 250 nodes): long paths, many enclosing ranges
+    dpath = os.path.join(ctx.build, 'jq_deep_progs.ndjson')
+    ctx.run([ctx.go_build('tree'), 'deepgen', str(12 if th else 4), dpath, '2'], check=True, timeout=300)
+    deep = [p for p in vlib.read_ndjson(dpath) if len(p['prog']) <= 250]
+    for p in deep:
+        p['len'] = (p['len'] + 7) // 8 * 8      # the jq arm decodes files: whole bytes (the tail becomes a gap)
+    progs += deep
+    ctx.cov['jq_deep_programs'] = len(deep)
     cpath = os.path.join(ctx.build, 'jq_progs.ndjson')
     vlib.write_ndjson(cpath, progs)
     binp = ctx.go_build('jqtree')
